@@ -272,14 +272,18 @@ func killedStarts(r *vf.Run) {
 		s       sweepSpec
 		changed bool
 		killAt  int
+		first   bool // the very FIRST start on an empty directory is the one that is killed
 	}
 	var jobs []job
 	for i := 0; i < n; i++ {
 		s := sweepSpec{N: i, Desc: fmt.Sprintf("kill %d/%d", salt, i), Extra: i % 3, Kind: i}
 		for k := 1; k <= 4; k++ {
-			jobs = append(jobs, job{s, true, k})
+			jobs = append(jobs, job{s, true, k, false})
 			if i%4 == 0 {
-				jobs = append(jobs, job{s, false, k})
+				jobs = append(jobs, job{s, false, k, false})
+			}
+			if i%4 == 1 {
+				jobs = append(jobs, job{s, false, k, true})
 			}
 		}
 	}
@@ -299,6 +303,57 @@ func killedStarts(r *vf.Run) {
 					fail := func(sig, what string) {
 						r.Violation(sig, fmt.Sprintf("structure %d (%q), kill before write %d of the start: %s", j.s.N, j.s.Desc, j.killAt, what),
 							map[string]interface{}{"structure": j.s, "structure_changed_in_the_killed_start": j.changed, "kill_before_write": j.killAt, "history": hist})
+					}
+					if j.first {
+						// killed first start, complete start S, restart S, start with S', restart S'
+						how := killedStart(killSpec{Dir: dir, Spec: j.s, Variant: false, KillAt: j.killAt}, fmt.Sprint(ji))
+						idK := readFile(dir, "uuid")
+						if idK == "<missing>" {
+							idK = "" // the kill came before the id was written
+						}
+						hist = append(hist, fmt.Sprintf("FIRST start on the empty directory (S) killed before write %d: %s; files now: uuid=%q version=%q configHash=%x", j.killAt, how, idK, readFile(dir, "version"), readFile(dir, "configHash")))
+						switch how {
+						case "killed":
+							r.Count("killed_starts", 1)
+							r.Count("killed_first_starts", 1)
+						case "completed":
+							r.Count("kill_point_beyond_the_writes_of_a_start", 1)
+						default:
+							r.Count("killed_start_child_failures", 1)
+							r.Distinct("killed_start_child_failure", how)
+							return
+						}
+						var vs [4]int64
+						var ids [4]string
+						for q, variant := range []bool{false, false, true, true} {
+							v, id, err := completeStart(dir, j.s, variant, q)
+							hist = append(hist, fmt.Sprintf("complete start with %s: c#=%s id=%s err=%v", map[bool]string{true: "S'", false: "S"}[variant], v, id, err))
+							if err != nil {
+								fail("kill:start-fails-after-killed-first-start", err.Error())
+								return
+							}
+							n, perr := strconv.ParseInt(v, 10, 64)
+							if perr != nil {
+								fail("kill:version-not-a-number", fmt.Sprintf("version file %q after a killed first start", v))
+								return
+							}
+							vs[q], ids[q] = n, id
+						}
+						switch {
+						case ids[1] != ids[0] || ids[2] != ids[0] || ids[3] != ids[0] || (idK != "" && ids[0] != idK):
+							fail("kill:device-id-changes", fmt.Sprintf("device id %q after the killed first start, then %q", idK, ids))
+						case vs[1] != vs[0]:
+							fail("kill:c#-keeps-moving", fmt.Sprintf("the configuration number went from %d to %d on a restart without any change (after a killed first start)", vs[0], vs[1]))
+						case vs[2] <= vs[1]:
+							fail("kill:c#-not-bumped-after-killed-first-start", fmt.Sprintf("the first start on this directory was killed; two complete starts later the structure changed (S -> S') and the configuration number is still %d: controllers never learn about the change", vs[2]))
+						case vs[2] > vs[1]+2:
+							fail("kill:c#-jumps", fmt.Sprintf("the configuration number went from %d to %d for one structural change", vs[1], vs[2]))
+						case vs[3] != vs[2]:
+							fail("kill:c#-keeps-moving", fmt.Sprintf("the configuration number went from %d to %d on a restart without any change", vs[2], vs[3]))
+						default:
+							r.Count("killed_start_histories_held", 1)
+						}
+						return
 					}
 					v1, id1, err := completeStart(dir, j.s, false, 0)
 					hist = append(hist, fmt.Sprintf("complete start with S: c#=%s id=%s err=%v", v1, id1, err))
@@ -368,5 +423,6 @@ func killedStarts(r *vf.Run) {
 		r.Inconclusive(fmt.Sprintf("killed starts: %d child processes failed otherwise than by the kill", f))
 	}
 	r.Floor("killed_starts", int(r.Counter("killed_starts")), n*2)
+	r.Floor("killed_first_starts", int(r.Counter("killed_first_starts")), n/2)
 	r.Floor("kill points", r.DistinctN("kill_point"), 3)
 }
